@@ -255,6 +255,54 @@ func init() {
 			return vl{vBytes([]byte(a.Name)), c11ValDatatype(a.Datatype), c11ValDataspace(a.Dataspace), vOptBytes(a.Data)}, nil
 		},
 	}
+
+	// ---------------------------------------------------------------- superblock v0 / v2 / v3
+	c11Codecs["superblock"] = c11Codec{
+		enc: func(val json.RawMessage, _ *core.Superblock) ([]byte, error) {
+			var v struct {
+				Version   uint8  `json:"version"`
+				OffSize   uint8  `json:"offsize"`
+				LenSize   uint8  `json:"lensize"`
+				Base      uint64 `json:"base"`
+				Root      uint64 `json:"root"`
+				SuperExt  uint64 `json:"superext"`
+				RootBTree uint64 `json:"rootbtree"`
+				RootHeap  uint64 `json:"rootheap"`
+				EOF       uint64 `json:"eof"`
+			}
+			if err := json.Unmarshal(val, &v); err != nil {
+				return nil, err
+			}
+			sb := &core.Superblock{Version: v.Version, OffsetSize: v.OffSize, LengthSize: v.LenSize, BaseAddress: v.Base,
+				RootGroup: v.Root, Endianness: binary.LittleEndian, SuperExtension: v.SuperExt,
+				RootBTreeAddr: v.RootBTree, RootHeapAddr: v.RootHeap}
+			w := &c11Mem{}
+			if err := sb.WriteTo(w, v.EOF); err != nil {
+				return nil, err
+			}
+			return w.b, nil
+		},
+		dec: func(data []byte, _ *core.Superblock) (interface{}, error) {
+			sb, err := core.ReadSuperblock(bytes.NewReader(data))
+			if err != nil {
+				return nil, err
+			}
+			return vl{sb.Version, sb.OffsetSize, sb.LengthSize, vBool(sb.Endianness == binary.BigEndian), sb.BaseAddress,
+				sb.RootGroup, sb.SuperExtension, sb.DriverInfo, sb.RootBTreeAddr, sb.RootHeapAddr}, nil
+		},
+	}
+}
+
+// c11Mem is an in-memory io.WriterAt (zero-extends like a file).
+type c11Mem struct{ b []byte }
+
+func (m *c11Mem) WriteAt(p []byte, off int64) (int, error) {
+	end := int(off) + len(p)
+	if end > len(m.b) {
+		m.b = append(m.b, make([]byte, end-len(m.b))...)
+	}
+	copy(m.b[off:], p)
+	return len(p), nil
 }
 
 type c11DT struct {
